@@ -115,6 +115,18 @@ def linear_form_rows(expr, table="tableau_final", other="stage_values"):
     return {k: v for k, v in form.items() if v != 0}
 
 
+def _subst(node, env, depth=0):
+    """copy of ``node`` with single-assignment locals replaced by their defining expressions"""
+    import copy
+
+    class T(ast.NodeTransformer):
+        def visit_Name(self, n):
+            if isinstance(n.ctx, ast.Load) and n.id in env and depth < 8:
+                return _subst(env[n.id], env, depth + 1)
+            return n
+    return T().visit(copy.deepcopy(node))
+
+
 def error_estimate_form(repo, fc):
     """Linear form {row: coef} of the adaptive branch of get_error_estimate for folded class fc (its own
     override, else RungeKuttaIntegrator's)."""
@@ -123,10 +135,12 @@ def error_estimate_form(repo, fc):
     if fn is None:
         fn = repo.get(ITYPES, RK + ".get_error_estimate")
         rel = ITYPES
+    from .sym import inline_locals
+    env = inline_locals(fn)
     forms = []
     for st in walk_no_nested(fn):
         if isinstance(st, ast.Return) and st.value is not None:
-            v = st.value
+            v = _subst(st.value, env)
             if isinstance(v, ast.Call) and fname(v) in ("zeros_like", "zeros"):
                 continue
             forms.append((linear_form_rows(v), st))
@@ -159,3 +173,27 @@ def splitting_columns(repo):
     if set(cols) != {"drift_mask", "kick_mask"}:
         raise AnalysisError("cannot read drift/kick columns from `%s`" % src(upd)[:120])
     return cols["drift_mask"][0], cols["kick_mask"][0], upd, step
+
+
+def executes_iff_fsal_explicit(stmt, fn):
+    """does ``stmt`` execute exactly when  self.is_fsal and self.is_explicit  (whatever the arrangement of the if/else branches)?"""
+    from .sym import path_condition, equivalent
+    tree, bt = path_condition(stmt, fn)
+
+    def expected(asg):
+        return asg.get("self.is_fsal", False) and asg.get("self.is_explicit", not asg.get("self.is_implicit", False))
+
+    def constraint(asg):
+        if "self.is_explicit" in asg and "self.is_implicit" in asg:
+            return asg["self.is_explicit"] != asg["self.is_implicit"]
+        return True
+
+    def expected2(asg):
+        ex = asg["self.is_explicit"] if "self.is_explicit" in asg else (not asg["self.is_implicit"] if "self.is_implicit" in asg else False)
+        return asg.get("self.is_fsal", False) and ex
+    from .sym import tree_atoms
+    atoms = [a.split("@")[0] for a in tree_atoms(tree)]
+    if not set(atoms) <= {"self.is_fsal", "self.is_explicit", "self.is_implicit"} or "self.is_fsal" not in atoms:
+        return False
+    ok, _ = equivalent(tree, expected2, constraints=constraint)
+    return ok
